@@ -567,6 +567,12 @@ JOBS = [
          cbmc_flags=['--unwind', '4', '--unwinding-assertions'], loop_contracts=False,
          structs=_ST_VCHK[:4], preludes=['opaque.h'], props=['C04'],
          trusted=['MPI_Allreduce modelled for one rank (identity) and logged; with P ranks the element-wise sum keeps positions (paper step)', 'BOUNDED: ONE shape (one additional datum, 2 distributions with 1 and 2 bins), loops unwound with unwinding assertions']),
+    dict(name='c11_result_scaling', functions=['accumulator_dist_result', 'distribution_result_ctor2', 'plain_result_ctor6', 'mc_result_ctor5',
+                                                 'distribution_parameters_bins_x', 'distribution_parameters_bins_y', 'distribution_parameters_bin_size_x', 'distribution_parameters_bin_size_y'],
+         specs=['c11_result_scaling'], harness_sections=['c11_result_scaling'], entry='h_c11_result_scaling', enforce=None, bounded=True, af=['accumulator_dist_result'],
+         cbmc_flags=['--unwind', '4', '--unwinding-assertions'], loop_contracts=False,
+         structs=_ST_DIST[:3] + [dict(cls='mc_result', vec=True), dict(cls='distribution_result', vec=True), dict(cls='plain_result')], preludes=['opaque.h'], props=['C11', 'C02'],
+         trusted=['multiplication / division abstract (uninterpreted) with the proven single-operation facts', 'BOUNDED: ONE shape (two distributions with 2 bins each), loops unwound with unwinding assertions']),
     dict(name='refine_weights', functions=['multi_channel_refine_weights'], entry='h_multi_channel_refine_weights',
          enforce='multi_channel_refine_weights', replace=['vp_pow'], af=['multi_channel_refine_weights'], globals='T vp_g_s1, vp_g_s2; _Bool vp_g_nodata;',
          defines=['VP_NMAX=1048576'], props=['C08'], thorough_reals=['float'],
